@@ -107,6 +107,7 @@ func c09Gen(rng *rand.Rand, tier string, w *bufio.Writer) {
 		fmt.Fprintf(w, "case %d mixed %s\nmixed 3 4 %d\n", c, c09Cfgs[i%3], rng.Intn(1<<30))
 		c++
 	}
+	c09sGen(rng, tier, w, &c)
 }
 
 // ---------------------------------------------------------------- state
@@ -154,6 +155,7 @@ type c09State struct {
 	free    atomic.Bool
 	stopAt  atomic.Value // thread name that must park at inc.fetched
 	dead    bool
+	setx    bool // mode setx (harness/c09set.go)
 }
 
 func (st *c09State) get(n string) *c09Thread {
@@ -508,7 +510,8 @@ func (st *c09State) stress(writers, nkeys, per int) string {
 // ---------------------------------------------------------------- mixed histories + linearizability check
 
 type c09Op struct {
-	kind     string // set | inc | get
+	kind     string // set | seta (Overwrite=false) | setx (CreateIfNotExist=false) | del | inc | get
+	st       string // seta / setx / del: WROTE | UNCHANGED | NOT_FOUND | DELETED
 	arg      int64
 	resp     int64
 	absent   bool
@@ -523,6 +526,9 @@ func (o c09Op) String() string {
 	if o.kind == "set" {
 		r = "ok"
 	}
+	if o.st != "" {
+		r = o.st
+	}
 	return fmt.Sprintf("%s(%d)->%s@[%d,%d]", o.kind, o.arg, r, o.inv, o.ret)
 }
 
@@ -531,6 +537,21 @@ func c09Apply(o c09Op, present bool, v int64) (bool, bool, int64) {
 	switch o.kind {
 	case "set":
 		return true, true, o.arg
+	case "seta":
+		if !present {
+			return o.st == "WROTE", true, o.arg
+		}
+		return o.st == "UNCHANGED", present, v
+	case "setx":
+		if !present {
+			return o.st == "NOT_FOUND", present, v
+		}
+		return o.st == "WROTE", true, o.arg
+	case "del":
+		if !present {
+			return o.st == "NOT_FOUND", false, 0
+		}
+		return o.st == "DELETED", false, 0
 	case "inc":
 		nv := o.arg
 		if present {
@@ -584,6 +605,7 @@ func c09Linearizable(h []c09Op) bool {
 }
 
 func (st *c09State) mixed(writers, per int, seed int64) string {
+	st.setInt("z", 0) // keeps the swamp alive across deletes of "x"
 	var clock atomic.Int64
 	hist := make([][]c09Op, writers)
 	var wg sync.WaitGroup
@@ -594,10 +616,16 @@ func (st *c09State) mixed(writers, per int, seed int64) string {
 			rng := rand.New(rand.NewSource(seed + int64(w)*7919))
 			for i := 0; i < per; i++ {
 				o := c09Op{}
-				switch r := rng.Intn(10); {
+				switch r := rng.Intn(20); {
 				case r < 3:
 					o.kind, o.arg = "set", int64(100*(w+1)+i)
 				case r < 7:
+					o.kind, o.arg = "seta", int64(100*(w+1)+i)
+				case r < 9:
+					o.kind, o.arg = "setx", int64(100*(w+1)+i)
+				case r < 11:
+					o.kind = "del"
+				case r < 16:
 					o.kind, o.arg = "inc", int64(1+rng.Intn(3))
 				default:
 					o.kind = "get"
@@ -606,6 +634,16 @@ func (st *c09State) mixed(writers, per int, seed int64) string {
 				switch o.kind {
 				case "set":
 					st.setInt("x", o.arg)
+				case "seta":
+					o.st = c09sStatus(st, true, false, o.arg)
+				case "setx":
+					o.st = c09sStatus(st, false, true, o.arg)
+				case "del":
+					o.st = "NOT_FOUND"
+					if resp, err := st.rig.GW.Delete(context.Background(), &hydrapb.DeleteRequest{Swamps: []*hydrapb.DeleteRequest_SwampKeys{{IslandID: 1, SwampName: st.swamp, Keys: []string{"x"}}}}); err == nil && resp != nil &&
+						len(resp.GetResponses()) == 1 && len(resp.GetResponses()[0].GetKeyStatuses()) == 1 {
+						o.st = resp.GetResponses()[0].GetKeyStatuses()[0].GetStatus().String()
+					}
 				case "inc":
 					resp, err := st.rig.GW.IncrementInt64(context.Background(), &hydrapb.IncrementInt64Request{IslandID: 1, SwampName: st.swamp, Key: "x", IncrementBy: o.arg})
 					if err == nil && resp != nil {
@@ -684,6 +722,10 @@ func c09Run(in *bufio.Scanner, w *bufio.Writer) {
 				ev.id, _ = args[1].(int64)
 			}
 			st.events <- ev
+		case "gw.set.tested":
+			if st.setx {
+				c09s.hook(th)
+			}
 		case "inc.fetched":
 			if st.stopAt.Load().(string) != th {
 				return
@@ -708,7 +750,9 @@ func c09Run(in *bufio.Scanner, w *bufio.Writer) {
 			continue
 		}
 		if f[0] == "case" {
+			c09s.endCase()
 			st.endCase()
+			st.setx = false
 			st.dead = false
 			st.cfg = ""
 			mode := ""
@@ -719,12 +763,20 @@ func c09Run(in *bufio.Scanner, w *bufio.Writer) {
 			for _, c := range c09Cfgs {
 				ok = ok || c == st.cfg
 			}
-			if !ok || (mode != "sched" && mode != "stress" && mode != "mixed") {
+			if !ok || (mode != "sched" && mode != "stress" && mode != "mixed" && mode != "setx") {
 				st.dead = true
 				fmt.Fprintln(w, line)
 				continue
 			}
 			st.swamp = name.New().Sanctuary(c09Sanct(st.cfg)).Realm("r" + st.runTag).Swamp("c" + f[1]).Get()
+			if mode == "setx" {
+				st.free.Store(true)
+				if !st.setInt("z", 0) {
+					st.dead = true
+				}
+				st.setx = true
+				st.free.Store(false)
+			}
 			if mode == "sched" {
 				// preset k = 0 and a second key; learn the record's guard from the hook events of that Set
 				st.free.Store(false)
@@ -757,6 +809,8 @@ func c09Run(in *bufio.Scanner, w *bufio.Writer) {
 			continue
 		}
 		switch {
+		case st.setx:
+			fmt.Fprintln(w, c09s.line(st, f))
 		case f[0] == "step" && len(f) == 2:
 			fmt.Fprintln(w, st.step(f[1], false))
 		case f[0] == "fetch" && len(f) == 2:
@@ -802,5 +856,6 @@ func c09Run(in *bufio.Scanner, w *bufio.Writer) {
 		}
 		w.Flush()
 	}
+	c09s.endCase()
 	st.endCase()
 }
